@@ -102,8 +102,8 @@ PROPS['C11'] = dict(
     level='proof',
     technique='Verus postconditions that define every limb of the selected column from the inputs only, plus frame clauses over all other limb blocks, on the extracted real text',
     level_text='Unbounded proof for the coefficient-domain column operations: each ensures gives final(res).limb(col, j) for all j < size as a function of the read-only inputs (no old(res) on the right-hand side for out-of-place ops) and frame_ok: every block outside (col, 0..size) is unchanged.',
-    level_note='Covers the vec_znx_* reference operations, the transform-domain wrappers of vec_znx_dft.rs (fft64 and ntt120, numeric kernels abstract), the GLWE operation wrappers, and -- core layer, as a dependency-flow proof over assumed HAL flow contracts -- gglwe_product_dft, glwe_keyswitch_internal and glwe_keyswitch: with nothing required of the previous contents of res or of the scratch arena, no limb of the result depends on stale bytes (the accumulator taken from scratch must be cleared before the digit-grouped product: for dsize >= 3 its last limbs are only ever added to); idft/svp/vmp/convolution kernels themselves and the other core operations are not covered by this check.',
-    units=[V('vec_znx_arith'), V('vec_znx_ring'), V('vec_znx_merge'), V('vec_znx_split'), V('vec_znx_big'), V('vec_znx_normalize'), V('vec_znx_dft'), V('vec_znx_dft_ntt120'), V('glwe_ops'), V('core_keyswitch'),
+    level_note='Covers the vec_znx_* reference operations, the transform-domain wrappers of vec_znx_dft.rs (fft64 and ntt120, numeric kernels abstract), the GLWE operation wrappers, and -- core layer, as a dependency-flow proof over assumed HAL flow contracts -- gglwe_product_dft, glwe_keyswitch_internal, glwe_keyswitch and glwe_decrypt: with nothing required of the previous contents of res or of the scratch arena, no limb of the result depends on stale bytes (the accumulator taken from scratch must be cleared before the digit-grouped product: for dsize >= 3 its last limbs are only ever added to); idft/svp/vmp/convolution kernels themselves and the other core operations are not covered by this check.',
+    units=[V('vec_znx_arith'), V('vec_znx_ring'), V('vec_znx_merge'), V('vec_znx_split'), V('vec_znx_big'), V('vec_znx_normalize'), V('vec_znx_dft'), V('vec_znx_dft_ntt120'), V('glwe_ops'), V('core_keyswitch'), V('core_decrypt'),
            K('poulpy-cpu-ref', 'verif_kani::c11_ak', ['c11_ak_dft_apply__a3_r2_step2_off1', 'c11_ak_dft_apply__a2_r3_step1_off0', 'c11_ak_dft_apply__a3_r3_step2_off0', 'c11_ak_dft_apply__a2_r2_step1_off1'],
              cls='bounded', tier='thorough', timeout=1500, bound='FFT64Ref, N=8, two output columns, (a_size, res_size, step, offset) constant per harness; numeric kernels abstract',
              functions=['VecZnxDftApply::vec_znx_dft_apply (fft64 reference, real shape logic; fft_ref / reim_from_znx_i64_ref / table fills replaced by bit-level mixers)'],
@@ -147,12 +147,12 @@ PROPS['C12'] = dict(
     level='proof',
     technique='Kani contract check of the real arena allocator (take_slice_aligned / take_slice_default / scratch_available) with symbolic misalignment, buffer and take lengths; Verus obligations on scratch slices of the verified column operations',
     level_text='Allocator: complete proof of address/length/alignment/disjointness postconditions and of the availability ledger (avail decreases by exactly len + alignment padding; no padding when len is a multiple of 64); no panic whenever the request fits; the out-of-space panic is reachable only when it does not fit (should_panic harness). Coefficient-domain in-place ops (rotate/automorphism/mul_xp_minus_one/normalize _assign): unbounded Verus chain size query -> HAL default glue (take_slice of *_tmp_bytes/8 elements) -> scratch precondition of the reference operation.',
-    level_note='Core layer: glwe_keyswitch_tmp_bytes / glwe_keyswitch_internal_tmp_bytes / gglwe_product_dft_tmp_bytes are proved sufficient for glwe_keyswitch, glwe_keyswitch_internal and gglwe_product_dft (every take and every inner availability assertion holds with exactly the advertised bytes, unbounded in all shape parameters) under A-ALIGN and A-VMP-RES; the other DFT-family and core operations are NOT decided here; for ring degrees N < 8 limb byte sizes are not multiples of 64 and padding is not budgeted by size queries (DESIGN §6-4).',
+    level_note='Core layer: glwe_keyswitch_tmp_bytes / glwe_keyswitch_internal_tmp_bytes / gglwe_product_dft_tmp_bytes (and glwe_decrypt_tmp_bytes for glwe_decrypt) are proved sufficient for glwe_keyswitch, glwe_keyswitch_internal and gglwe_product_dft (every take and every inner availability assertion holds with exactly the advertised bytes, unbounded in all shape parameters) under A-ALIGN and A-VMP-RES; the other DFT-family and core operations are NOT decided here; for ring degrees N < 8 limb byte sizes are not multiples of 64 and padding is not budgeted by size queries (DESIGN §6-4).',
     units=[
         K('poulpy-cpu-ref', 'hal_defaults::scratch::verif_kani', ['c12_take_slice_aligned_contract', 'c12_take_slice_aligned_panics_iff_too_small',
           'c12_take_slice_default_u8', 'c12_take_slice_default_i64', 'c12_take_slice_default_f64', 'c12_take_slice_default_i128'], cls='complete', timeout=600,
           functions=['hal_defaults::scratch::take_slice_aligned', 'HalScratchDefaults::take_slice_default', 'HalScratchDefaults::scratch_available_default', 'HalScratchDefaults::scratch_from_bytes_default']),
-        V('vec_znx_ring'), V('vec_znx_normalize'), V('hal_glue'), V('glwe_ops'), V('core_keyswitch'),
+        V('vec_znx_ring'), V('vec_znx_normalize'), V('hal_glue'), V('glwe_ops'), V('core_keyswitch'), V('core_decrypt'),
         K('poulpy-cpu-ref', 'verif_kani::c12_window', [f'c12_window_{op}__n4' for op in ('normalize_assign', 'rotate_assign', 'automorphism_assign', 'mul_xp_minus_one_assign', 'lsh_assign', 'rsh_assign')],
           cls='bounded', timeout=1200, bound='N=4 (limb byte size 32: not a multiple of the 64-byte alignment), size 2',
           functions=['HAL traits VecZnx{Normalize,Rotate,Automorphism,MulXpMinusOne,Lsh,Rsh}Assign with a scratch of exactly the companion *_tmp_bytes; two runs with different scratch contents']),
@@ -309,13 +309,14 @@ PROPS['C02'] = dict(
 
 PROPS['C01'] = dict(
     level='proof',
-    technique='Verus contract on the integer statements sliced from the real NoiseInfos::target_limb_and_scale (where and at which scale the fresh error is injected)',
-    level_text='Unbounded proof for every precision k in 1..=2^32 and every radix 1..=64: the error limb is ceil(k/base2k)-1 and the scale exponent is (limb+1)*base2k-k in [0, base2k), i.e. the error enters exactly at precision k.',
-    level_note='Only the placement of the error; the ring identity phase = m + e through the DFT domain, the public-key 1-norm bound and the sampling distribution are undecided. The f64 exp2 of the exponent is dropped by the slice (stated substitution).',
-    units=[V('noise', lemmas=['c01_target_limb_and_exponent'])],
-    trusted_base=VERUS_TRUST + ['slice substitution ` as f64).exp2()` => `)`: scale == 2^e is not checked', 'usize::div_ceil assumed specification'],
+    technique='Verus contracts: (i) on the integer statements sliced from the real NoiseInfos::target_limb_and_scale (where and at which scale the fresh error is injected); (ii) a dependency-flow contract on the real text of glwe_decrypt (poulpy-core/src/decryption/glwe.rs) over assumed flow contracts of the transform-domain HAL operations',
+    level_text='Unbounded. (i) for every precision k in 1..=2^32 and every radix 1..=64 the error limb is ceil(k/base2k)-1 and the scale exponent is (limb+1)*base2k-k in [0, base2k): the error enters exactly at precision k. (ii) for every rank, limb count and ring degree, every limb of the decrypted plaintext depends on EXACTLY every active limb of every ciphertext column and every secret column: the phase is accumulated at the full ciphertext precision (no low limb is dropped before the final normalisation, which would cost more than the one unit of rounding the property allows), nothing of the scratch arena or of the previous plaintext contents reaches it, limbs beyond the plaintext size are untouched, no panic, and a scratch of exactly glwe_decrypt_tmp_bytes suffices.',
+    level_note='(ii) is a statement about which inputs reach the output, not about values: that the accumulated phase equals message + error needs exact DFT products (C07) and is undecided, as are the encryption side, the public-key 1-norm bound, the sampling distribution and the LWE / compressed variants. The f64 exp2 of the exponent is dropped by the slice in (i).',
+    units=[V('noise', lemmas=['c01_target_limb_and_exponent']), V('core_decrypt')],
+    trusted_base=VERUS_TRUST + CORE_TRUST + ['slice substitution ` as f64).exp2()` => `)`: scale == 2^e is not checked', 'usize::div_ceil assumed specification',
+                  'R8 / subst in core_decrypt: `c0_big.data_mut().fill(0)` is read as zeroing every limb of the accumulator; the temporary `pt.to_mut()` is named'],
     assumptions=[],
-    remainder='phase = message + error (needs exact DFT products), public-key encryption bound, decryption rounding, four backends',
+    remainder='phase = message + error (needs exact DFT products), encryption side, public-key encryption bound, decryption rounding value, LWE and compressed forms, four backends',
 )
 
 PROPS['C06'] = dict(
